@@ -79,6 +79,12 @@ def tasks(tier):
         cfg = dict(M=M, alphabet=["ok", "x:T", "r:T"], handler="call", handler_free=True,
                    strat_menu=[0, "nan", -1, 1], strat_free=True, max_unknown=None)
         out.append({"family": "permit-zero-delay", "cfg": cfg, "entry": e, "bound": 0})
+    # a handler whose answer does not depend on anything (always DEFER / always ABORT): whatever
+    # the delay, no failed attempt may be followed by another one
+    for M, e, hm in itertools.product([2, 3], Q4, ["DEFER", "ABORT"]):
+        cfg = dict(M=M, alphabet=["ok", "x:T", "r:T"], handler="policy", handler_menu=[hm],
+                   strat_menu=[0, "nan", -1, 1], strat_free=True, max_unknown=None)
+        out.append({"family": "permit-const-handler", "cfg": cfg, "entry": e, "bound": 0})
     # no handler, no abort predicate: the plain path (default sleeper through patched sleep)
     for M, bud, dl in itertools.product([1, 2, 3], buds, [None, 3]):
         cfg = dict(M=M, budget=bud, deadline=dl, alphabet=ALPHA, durs=[0, 2], overshoot=[0, 2],
@@ -135,6 +141,12 @@ def monitor(w, cfg):
                 v.append(("c03.retry-without-token",
                           f"attempt {a.i}: a retry was granted ({grants}) although the shared "
                           f"budget did not grant a token (consume calls: {a.consumes})"))
+            if (cfg["handler"] and len(cfg["handler_menu"]) == 1
+                    and cfg["handler_menu"][0] in ("DEFER", "ABORT") and not a.last):
+                v.append(("c03.handler-ignored",
+                          f"attempt {a.i} failed and the sleep handler always answers "
+                          f"{cfg['handler_menu'][0]}, yet another attempt was made "
+                          f"(handler consulted: {bool(a.handlers)})"))
             if a.must and grants:
                 key = F1_KEY if a.must == {"MAX_ATTEMPTS_GLOBAL"} else GRANT_KEY
                 v.append((key, f"attempt {a.i} ({op.label}, elapsed {a.elapsed}) must not be "
